@@ -16,7 +16,12 @@ def main():
     from formak import python
 
     out = {}
-    for item in json.load(open(batch_path)):
+    items = json.load(open(batch_path))
+    if os.environ.get("C15_REVERSED") == "1":
+        # another generation order / history inside the process: state leaking from one generation into the next
+        # (caches keyed by names) must not change any output
+        items = list(reversed(items))
+    for item in items:
         m = item["spec"]
         rec = {}
         try:
